@@ -398,3 +398,217 @@ Example C06_builder_corrupted_key_splits_user_key_refuted :
   (exists s', transact bytewise kp (fun _ => 100) [] 1000 [] 9 true 10 bx_size [o_ok] items (bst0 []) = (s', TExit) /\
      recs s' = []).
 Proof. split; eexists; (split; [vm_compute; reflexivity|]); vm_compute; repeat split; reflexivity. Qed.
+
+(* ------------------------------------------------------------------------------------------------------------------
+   The LOOPS that drive table compactions (model Lsm/RangeCompact.v): the retry loop of DB.CompactRange
+   (tableRangeCompaction, level = -1) and the background loop (tCompaction repeating tableAutoCompaction while
+   needCompaction).  One compaction = the model step of the theorems above; the tables it writes come from an output
+   oracle [bld] of which the theorems assume bld_ok (what C06_builder_cuts_ok proves of Builder.v's run: chunks of the
+   kept merged entries, cut between different user keys, under unused numbers); ms k is the minSeq of the k-th compaction.
+   ------------------------------------------------------------------------------------------------------------------ *)
+From GL Require Import Lsm.RangeCompact Lsm.RangeStep Lsm.RangeProofs Lsm.AutoProofs Lsm.RangeReads.
+From Coq Require Import ZArith Lia.
+
+(* Termination of the CompactRange retry loop when no new table arrives in between, with an explicit fuel bound:
+   range_fuel v = 1 + max 1 (levels - 1) * (number of stored entries).  Measure: the sum over the levels l < K of
+   (entries in level l) * (K - l), K = max 1 (levels - 1): each compaction of a pass takes a >= 1 entries out of a level
+   below m <= K and adds at most a one level down (the number of tables is no measure: one input may be cut into many
+   outputs); a pass that compacts nothing ends the loop.  No panic, no exhausted inner fuel. *)
+Theorem C06_compact_range_terminates : forall c, comparer_ok c -> forall p, kparams_ok p -> forall sz o bld ms,
+  bld_ok c p sz o bld ms -> forall st umin umax, wf_lsm c p (cp_v st) ->
+  forall fuel, (range_fuel (cp_v st) <= fuel)%nat ->
+  exists st' passes, compact_range c p sz o bld fuel st umin umax [] = POk (st', passes).
+Proof. exact compact_range_terminates. Qed.
+Print Assumptions C06_compact_range_terminates.
+
+(* What it returns with (for ANY fuel with which it returns): the version is well-formed; with m = the deepest level
+   >= 1 holding a table that overlaps the range (1 if none), no table of a level above m overlaps the range and
+   tFiles.overlaps answers false for every level below m (hence, for tables whose sequence numbers fit 56 bits, no table
+   there overlaps either): all data of the range sits in ONE level.  The last pass is the one that found nothing to do;
+   the passes before it exist because getCompactionRange cuts the overlapping tables of a level > 0 to the shortest
+   prefix reaching the source limit (C06_range_compaction_seed: never empty), so one pass may move only part of a level.
+   No level beyond max 1 (levels - 1) was created.  Reads are unchanged: the read path returns on the final version what
+   it returned on the initial one, for every key at every sequence number at or above every compaction's minSeq. *)
+Theorem C06_compact_range_post : forall c, comparer_ok c -> forall p, kparams_ok p -> forall sz o bld ms,
+  bld_ok c p sz o bld ms -> (forall j, ms j < keyMaxSeq p) ->
+  forall st umin umax fuel st' passes, wf_lsm c p (cp_v st) ->
+  compact_range c p sz o bld fuel st umin umax [] = POk (st', passes) ->
+  wf_lsm c p (cp_v st') /\
+  (let m := range_max_level c p (cp_v st') umin umax in
+   (forall l t, (l < m)%nat -> In t (lv (cp_v st') l) -> t_overlaps c t umin umax = false) /\
+   (forall l, (m < l)%nat -> files_overlaps c p (lv (cp_v st') l) umin umax false = false) /\
+   (forall l t, (m < l)%nat -> (forall u, In u (lv (cp_v st') l) -> e_seq (t_hi u) <= keyMaxSeq p) ->
+      In t (lv (cp_v st') l) -> t_overlaps c t umin umax = false) /\
+   last passes (0%nat, []) = (m, [])) /\
+  levels_below (cp_v st') (S (range_depth (cp_v st))) /\
+  (forall k s, safe_seq ms s -> api_of (lsm_get c p (lst (cp_v st')) k s) = api_of (lsm_get c p (lst (cp_v st)) k s)).
+Proof. exact compact_range_post_full. Qed.
+Print Assumptions C06_compact_range_post.
+
+(* The background loop reaches needCompaction = false without writes — CONDITIONALLY.  goleveldb has no deepest level:
+   computeCompaction scores every level, the deepest included, against GetCompactionTotalSize(level), and a level whose
+   score reaches 1 is compacted into the next one, creating it if need be.  Hypotheses: a table weighs at most Bz bytes
+   per entry, and from level K on (K >= the number of levels) the level limit exceeds Bz * (stored entries) — true for
+   some K whenever the limits grow without bound (CompactionTotalSizeMultiplier > 1).  Then within K * (stored entries)
+   steps — size-triggered, seek-triggered, trivial moves and rewrites alike — the loop stops with a well-formed version
+   that needs no compaction and has no level beyond K.  Same measure as above.  Without the growth hypothesis the
+   statement is false: C06_auto_compaction_quiesces_refuted. *)
+Theorem C06_auto_compaction_quiesces : forall c, comparer_ok c -> forall p, kparams_ok p -> forall sz o bld ms,
+  bld_ok c p sz o bld ms -> forall st Bz K,
+  wf_lsm c p (cp_v st) -> seek_in st -> size_bounded sz Bz -> (1 <= K)%nat -> (length (cp_v st) <= K)%nat ->
+  limits_exceed o Bz (elen (concat (cp_v st))) K ->
+  forall fuel, (K * elen (concat (cp_v st)) <= fuel)%nat ->
+  exists st', auto_loop c sz o bld fuel st = POk st' /\ need_compaction sz o st' = false /\ wf_lsm c p (cp_v st') /\
+              levels_below (cp_v st') (S K).
+Proof. exact auto_compaction_quiesces. Qed.
+Print Assumptions C06_auto_compaction_quiesces.
+
+(* ... and whenever it stops, reads are what they were. *)
+Theorem C06_auto_compaction_reads : forall c, comparer_ok c -> forall p, kparams_ok p -> forall sz o bld ms,
+  bld_ok c p sz o bld ms -> (forall j, ms j < keyMaxSeq p) ->
+  forall fuel st st', wf_lsm c p (cp_v st) -> seek_in st -> auto_loop c sz o bld fuel st = POk st' ->
+  forall k s, safe_seq ms s -> api_of (lsm_get c p (lst (cp_v st')) k s) = api_of (lsm_get c p (lst (cp_v st)) k s).
+Proof. exact auto_loop_get. Qed.
+Print Assumptions C06_auto_compaction_reads.
+
+(* The write throttle: a version that needs no compaction has fewer level-0 tables than WriteL0PauseTrigger, so
+   DB.resumeWrite holds and paused writers are released — provided 0 < CompactionL0Trigger <= WriteL0PauseTrigger
+   (an explicit hypothesis about the option getters; with CompactionL0Trigger < 0 the level-0 score is never >= 1 and
+   with CompactionL0Trigger > WriteL0PauseTrigger a quiescent DB may keep writers paused). *)
+Theorem C06_quiescent_resumes_write : forall sz o st,
+  need_compaction sz o st = false -> (0 < o_l0_trigger o)%Z -> (o_l0_trigger o <= o_l0_pause o)%Z ->
+  resume_write o st = true.
+Proof. exact quiescent_resumes_write. Qed.
+Print Assumptions C06_quiescent_resumes_write.
+
+(* Every table compaction leaves the compaction pointer of its source level at the compaction's imax and the other
+   pointers alone (the repaired behaviour; see C06_comp_ptr_lost_on_manifest_rotation_refuted for the code before). *)
+Theorem C06_comp_ptr_advances : forall c, comparer_ok c -> forall p, kparams_ok p -> forall sz o bld ms,
+  bld_ok c p sz o bld ms -> forall st lvl seed cm noTrivial st',
+  wf_lsm c p (cp_v st) -> seed_ok (cp_v st) lvl seed ->
+  new_compaction c sz (cp_v st) lvl (o_exp_limit o lvl) seed = POk cm ->
+  table_compaction c sz o bld st cm noTrivial = POk st' ->
+  get_ptr (cp_ptrs st') lvl = Some (c_imax cm) /\
+  forall l, l <> lvl -> get_ptr (cp_ptrs st') l = get_ptr (cp_ptrs st) l.
+Proof. exact comp_ptr_advances. Qed.
+Print Assumptions C06_comp_ptr_advances.
+
+(* The hypothesis bld_ok is satisfiable: the one-output-table oracle of the model file satisfies it for every
+   comparer, options and minSeq function. *)
+Theorem C06_simple_builder_admissible : forall c, comparer_ok c -> forall p sz o ms,
+  bld_ok c p sz o (simple_bld c p ms) ms.
+Proof. exact simple_bld_ok. Qed.
+Print Assumptions C06_simple_builder_admissible.
+
+(* Non-vacuity.  A three-level version, tables of 100 bytes, source limit 150: CompactRange [0, 12] needs TWO compacting
+   passes — pass 1 (m = 2) takes only tables 3 and 4 of level 1 (the shortest prefix reaching the limit) with table 1 of
+   level 2; pass 2 takes the rest (table 5) with the output of pass 1; pass 3 finds nothing.  Everything ends in level 2,
+   the fuel bound is 17, both compaction pointers of level 1 were set.  With growing level limits the background loop
+   stops after one step (level 1 holds 300 >= 250 bytes: table 3 moves to ... level 2 by a rewrite with table 1). *)
+Definition rx_v : list (list table) :=
+  [ []; [ ex_t 3 [ex_e 0 5; ex_e 2 4]; ex_t 4 [ex_e 4 3; ex_e 6 2]; ex_t 5 [ex_e 8 1; ex_e 11 1] ];
+    [ ex_t 1 [ex_e 2 0; ex_e 9 0] ] ]%N.
+Definition rx_sz (t : table) : N := 50 * N.of_nat (length (t_entries t)).
+Definition rx_o : copts :=
+  {| o_src_limit := fun _ => 150; o_exp_limit := fun _ => 0; o_gp_limit := fun _ => 1000;
+     o_tot_limit := fun l => match l with 1%nat => 250%Z | _ => 100000%Z end; o_l0_trigger := 4%Z; o_l0_pause := 12%Z |}.
+Definition rx_st : cpstate := {| cp_v := rx_v; cp_ptrs := []; cp_seek := None; cp_n := 0 |}.
+Definition rx_bld := simple_bld bytewise kp (fun _ => 0).
+
+Example C06_loops_nonvacuous :
+  wf_lsmb bytewise kp rx_v = true /\ range_fuel rx_v = 17%nat /\
+  (exists st' passes, compact_range bytewise kp rx_sz rx_o rx_bld 17 rx_st (Some [0]) (Some [12]) [] = POk (st', passes) /\
+     map nums_of (cp_v st') = [[]; []; [7]]%N /\
+     map (fun ps => (fst ps, map (fun cm => (c_level cm, nums_of (c_t0 cm), nums_of (c_t1 cm))) (snd ps))) passes =
+       [ (2%nat, [(1%nat, [3; 4], [1])]); (2%nat, [(1%nat, [5], [6])]); (2%nat, []) ]%N /\
+     wf_lsmb bytewise kp (cp_v st') = true /\ get_ptr (cp_ptrs st') 1 <> None) /\
+  need_compaction rx_sz rx_o rx_st = true /\
+  (exists st', auto_loop bytewise rx_sz rx_o rx_bld 16 rx_st = POk st' /\ need_compaction rx_sz rx_o st' = false /\
+     map nums_of (cp_v st') = [[]; [4; 5]; [6]]%N /\ resume_write rx_o st' = true).
+Proof.
+  split; [vm_compute; reflexivity|]. split; [vm_compute; reflexivity|].
+  split; [eexists; eexists; split; [vm_compute; reflexivity|vm_compute; repeat split; try reflexivity; discriminate]|].
+  split; [vm_compute; reflexivity|]. eexists. split; [vm_compute; reflexivity|]. vm_compute. repeat split; reflexivity.
+Qed.
+
+(* REFUTED without the growth hypothesis (found while looking for the measure; reproduced on the real DB, see
+   known_findings_C06.txt: flat-level-limits-endless-moves).  FLAT level limits (CompactionTotalSizeMultiplier = 1: every
+   level may hold 50 bytes) and ONE table of 100 bytes in level 1: the table's level always scores 2, so every step is
+   a trivial move one level down into a level that scores 2 again.  Every other hypothesis of
+   C06_auto_compaction_quiesces holds (well-formed, no cSeek, size bound, K = 2 >= levels); the bound of the theorem
+   would be K * entries = 4 steps; after 300 steps the loop is still running: fuel 300 is exhausted, the table sits
+   in level 301 and needCompaction holds.  (The real DB additionally stops by accident when
+   multiplier^level underflows, e.g. after ~1075 moves with multiplier 0.5; with multiplier 1 it never stops.) *)
+Definition fx_o : copts :=
+  {| o_src_limit := fun _ => 150; o_exp_limit := fun _ => 100000; o_gp_limit := fun _ => 1000;
+     o_tot_limit := fun _ => 50%Z; o_l0_trigger := 4%Z; o_l0_pause := 12%Z |}.
+Definition fx_st : cpstate :=
+  {| cp_v := [ []; [ ex_t 3 [ex_e 0 5; ex_e 2 4] ] ]%N; cp_ptrs := []; cp_seek := None; cp_n := 0 |}.
+Fixpoint auto_steps (n : nat) (st : cpstate) : pres cpstate :=
+  match n with
+  | O => POk st
+  | S n' => pdo st' <- auto_step bytewise rx_sz fx_o rx_bld st; auto_steps n' st'
+  end.
+
+Example C06_auto_compaction_quiesces_refuted :
+  wf_lsmb bytewise kp (cp_v fx_st) = true /\ seek_in fx_st /\ size_bounded rx_sz 50 /\
+  (length (cp_v fx_st) <= 2)%nat /\ (2 * elen (concat (cp_v fx_st)) = 4)%nat /\
+  ~ limits_exceed fx_o 50 (elen (concat (cp_v fx_st))) 2 /\
+  auto_loop bytewise rx_sz fx_o rx_bld 300 fx_st = POutOfFuel /\
+  (exists st', auto_steps 300 fx_st = POk st' /\ need_compaction rx_sz fx_o st' = true /\
+     length (cp_v st') = 302%nat /\ nums_of (nth 301 (cp_v st') []) = [3]%N /\ cp_n st' = 300%nat).
+Proof.
+  split; [vm_compute; reflexivity|]. split; [intros l t H; discriminate|].
+  split; [intros t; unfold rx_sz; apply N.le_refl|]. split; [vm_compute; repeat constructor|]. split; [vm_compute; reflexivity|].
+  split; [intros H; specialize (H 2%nat (le_n 2)); vm_compute in H; discriminate|].
+  split; [vm_compute; reflexivity|]. eexists. split; [vm_compute; reflexivity|]. vm_compute. repeat split; reflexivity.
+Qed.
+
+(* The same for ALL fuel, and in general: with FLAT level limits (every level may hold lim > 0 bytes) and a size function
+   under which no table is lighter than lim, from a well-formed version with an empty level 0, no cSeek and some readable
+   key the background loop never stops, whatever fuel it is given.  (Reads are preserved by every step, so a table
+   always exists; nothing moves up, so it lives in a level >= 1, which scores >= 1.) *)
+Theorem C06_flat_limits_never_idle : forall c, comparer_ok c -> forall p, kparams_ok p -> forall sz o bld ms,
+  bld_ok c p sz o bld ms -> (forall j, ms j < keyMaxSeq p) ->
+  forall lim, 0 < lim -> (forall l, o_tot_limit o l = Z.of_N lim) -> (forall t, t_entries t <> [] -> lim <= sz t) ->
+  forall k0 s0, safe_seq ms s0 -> forall val fuel st,
+  restless c p k0 s0 val st -> auto_loop c sz o bld fuel st = POutOfFuel.
+Proof. exact flat_limits_never_idle. Qed.
+Print Assumptions C06_flat_limits_never_idle.
+
+Example C06_auto_compaction_never_quiesces_refuted :
+  forall fuel, auto_loop bytewise rx_sz fx_o rx_bld fuel fx_st = POutOfFuel.
+Proof.
+  intros fuel.
+  apply (C06_flat_limits_never_idle bytewise bytewise_ok kp kp_ok rx_sz fx_o rx_bld (fun _ => 0)
+           (simple_bld_ok bytewise bytewise_ok kp rx_sz fx_o (fun _ => 0)) ltac:(intros j; vm_compute; reflexivity)
+           50 ltac:(reflexivity) ltac:(intros l; reflexivity)
+           ltac:(intros t H; unfold rx_sz; destruct (t_entries t) as [|e r]; [congruence|cbn [length]; rewrite Nat2N.inj_succ; nia])
+           [0] 10 ltac:(intros j; vm_compute; discriminate) [] fuel fx_st).
+  split; [apply (wf_lsmb_sound bytewise bytewise_ok kp); vm_compute; reflexivity|].
+  split; [reflexivity|]. split; [reflexivity|]. vm_compute. reflexivity.
+Qed.
+
+(* REFUTED for the code before the repair (found by the KRange correspondence: observed compaction pointers after a
+   range compaction differed from the model's whenever MaxManifestFileSize made the commit rotate the manifest): the
+   record of a rotating commit dropped rec.compPtrs, so the pointer of the source level did not advance — here: stays
+   unset — and the next size-triggered pick of that level starts at tables[0] again instead of behind the last
+   compaction (with every commit rotating, the round-robin over the key space never moves). *)
+Example C06_comp_ptr_lost_on_manifest_rotation_refuted :
+  exists cm st1 st2,
+    new_compaction bytewise rx_sz rx_v 1 0 [ex_t 4 [ex_e 4 3; ex_e 6 2]]%N = POk cm /\
+    table_compaction bytewise rx_sz rx_o rx_bld rx_st cm false = POk st1 /\
+    table_compaction_unrepaired bytewise rx_sz rx_o rx_bld true rx_st cm false = POk st2 /\
+    cp_v st2 = cp_v st1 /\ get_ptr (cp_ptrs st1) 1 = Some (c_imax cm) /\ get_ptr (cp_ptrs st2) 1 = None /\
+    (* the next size-triggered pick of level 1 (its limit lowered to 50; table 4 was compacted): behind the pointer
+       (table 5) vs tables[0] (table 3) *)
+    let o2 := {| o_src_limit := o_src_limit rx_o; o_exp_limit := o_exp_limit rx_o; o_gp_limit := o_gp_limit rx_o;
+                 o_tot_limit := fun l => match l with 1%nat => 50%Z | _ => 100000%Z end; o_l0_trigger := 4%Z; o_l0_pause := 12%Z |} in
+    (exists s1 s2 ty, pick_seed bytewise rx_sz o2 st1 = POk (Some (1%nat, [s1], ty)) /\
+                      pick_seed bytewise rx_sz o2 st2 = POk (Some (1%nat, [s2], ty)) /\ t_num s1 = 5%N /\ t_num s2 = 3%N).
+Proof.
+  eexists. eexists. eexists. split; [vm_compute; reflexivity|]. split; [vm_compute; reflexivity|].
+  split; [vm_compute; reflexivity|]. split; [reflexivity|]. split; [vm_compute; reflexivity|]. split; [vm_compute; reflexivity|].
+  cbv zeta. eexists. eexists. eexists. split; [vm_compute; reflexivity|]. split; [vm_compute; reflexivity|].
+  split; reflexivity.
+Qed.
